@@ -88,6 +88,13 @@ theorem default_windows_within_tolerance :
     ooqCapacity RX_BUF_SIZE_PER_VSOCK_DEFAULT defaultMssV6 ≤ WRAP_TOLERANCE := by
   decide
 
+/-- **The same side condition for the sending side (D25).** The sender measures `last_sent_seq_nr − snd_una`, the
+offsets of its segments and its FIN's number against `snd_una`: distances up to the number of queued segments + 1.
+Since D25 the segmentation loop stops at `MAX_TX_SEGMENTS` (`C10Inv.segmentLoop_len_bound`); this is the obligation
+that ties that cap to the tolerance. Before D25 no such constant existed: the buffer size in *bytes* was the only
+bound, and one-byte segments (Nagle off) took the queue past 32767. -/
+theorem tx_queue_cap_within_tolerance : MAX_TX_SEGMENTS + 1 ≤ WRAP_TOLERANCE := by decide
+
 /-- The crate's `SeqNr - SeqNr` is true modular distance for every distance up to the crate
 tolerance (corollary, pinned to the regenerated constant). -/
 theorem seqSub_eq_modDist (a b : Nat) (ha : a < 65536) (hb : b < 65536)
